@@ -48,7 +48,7 @@ def itemOfJson (j : Json) : Except String (Str × Int) :=
 def entriesJ (es : List Entry) : Json :=
   Json.arr (es.map (fun e => Json.arr #[strJ e.cat, strJ e.unit, toJson e.exp])).toArray
 
-def stringsJ (reg : Reg) (r : Except ErrKind Quantity) : Json :=
+def stringsJC (reg : Reg) (cap : Str) (r : Except ErrKind Quantity) : Json :=
   match r with
   | .error e => errJ e
   | .ok q =>
@@ -62,12 +62,69 @@ def stringsJ (reg : Reg) (r : Except ErrKind Quantity) : Json :=
       ("joined", pairsJ (joinedUnits q.entries)),
       ("scalar_repr_tail", strJ (scalarReprTail q)), ("suffix", strJ (formattedSuffix q)),
       ("array_repr_head", strJ (arrayReprHead q)), ("array_repr_tail", strJ (arrayReprTail q)),
+      ("quantity_repr", strJ (quantityReprCaption q cap)),
       ("parsed", optPairsJ (parseUnit q.unit)),
       ("all_atomic", .bool (q.entries.all (fun e => atomic e.unit)))])]
+
+def stringsJ (reg : Reg) (r : Except ErrKind Quantity) : Json := stringsJC reg [] r
+
+/-- one token of an expression in postfix form, applied to the stack of sub-expressions -/
+def rpnStep (stack : List Expr) (tok : Json) : Except String (List Expr) :=
+  match tok with
+  | .arr #[.str "leaf", c, u] => do pure (Expr.leaf (← symOfJson c) (← symOfJson u) :: stack)
+  | .arr #[.str "mul"] => match stack with
+    | b :: a :: rest => pure (Expr.mul a b :: rest)
+    | _ => .error "mul: stack underflow"
+  | .arr #[.str "div"] => match stack with
+    | b :: a :: rest => pure (Expr.div a b :: rest)
+    | _ => .error "div: stack underflow"
+  | .arr #[.str "rdiv"] => match stack with
+    | a :: rest => pure (Expr.rdiv a :: rest)
+    | _ => .error "rdiv: stack underflow"
+  | .arr #[.str "spow", n] => match stack with
+    | a :: rest => do pure (Expr.spow a (← intOfJson n) :: rest)
+    | _ => .error "spow: stack underflow"
+  | .arr #[.str "qpow", n] => match stack with
+    | a :: rest => do pure (Expr.qpow a (← intOfJson n) :: rest)
+    | _ => .error "qpow: stack underflow"
+  | _ => .error "bad rpn token"
+
+def exprOfRpn (toks : List Json) : Except String Expr := do
+  match ← toks.foldlM rpnStep [] with
+  | [e] => pure e
+  | _ => .error "rpn: not exactly one expression"
+
+/-- one step of a history: an expression over simple quantities, or a request to `ObtainQuantity` /
+`Quantity.CreateDerived` with a mapping, or the list form.  The model has no cache: every step is predicted from
+its own operands / request. -/
+def historyStep (reg : Reg) (st : Json) : Except String Json := do
+  let k ← getStr st "k"
+  match k with
+  | "expr" =>
+    let e ← exprOfRpn (← getArr st "rpn").toList
+    pure (stringsJ reg (e.eval reg))
+  | "dict" =>
+    let entries ← (← getArr st "entries").toList.mapM entryOfJson
+    -- the unknown-unit caption takes no part in the strings, only in `Quantity.__repr__`
+    let cap ← match st.getObjVal? "cap" with
+      | .ok c => symOfJson c
+      | .error _ => pure []
+    pure (stringsJC reg cap (obtainFromDict reg entries))
+  | "list" =>
+    let pairs ← (← getArr st "pairs").toList.mapM itemOfJson
+    let lcats ← (← getArr st "lcats").toList.mapM symOfJson
+    pure (stringsJ reg (obtainFromList reg pairs lcats))
+  | _ => throw s!"unknown step kind {k}"
 
 def handle (j : Json) : Except String Json := do
   let op ← getStr j "op"
   match op with
+  | "history" =>
+    let cats ← (← getArr j "cats").toList.mapM catOfJson
+    let names ← (← getArr j "names").toList.mapM nameOfJson
+    let reg : Reg := ⟨cats, names⟩
+    let outs ← (← getArr j "steps").toList.mapM (historyStep reg)
+    pure (Json.mkObj [("ok", Json.arr outs.toArray)])
   | "strings" =>
     let entries ← (← getArr j "entries").toList.mapM entryOfJson
     let cats ← (← getArr j "cats").toList.mapM catOfJson
